@@ -215,8 +215,11 @@ package processor
 //@   requires saneOps(published)
 //@   ensures result != nil && fresh(result)
 //
+// ghost: the list handed to the version filter (what Resolve's history is made of)
+//@ ghost filterIn []*operation.AnchoredOperation
 //@ func (*OperationProcessor).filterOps
 //@   requires procOK(s) && saneOps(ops)
+//@   sets filterIn = ops
 //@   ensures err == nil ==> saneOps(r0) && len(r0) <= len(ops)
 //@   ensures err == nil && opts.VersionID == "" && opts.VersionTime == "" ==> r0 == ops
 //@   ensures err == nil && opts.VersionID != "" ==> len(r0) >= 1 && sameSlice(r0, ops) && ops[len(r0)-1].CanonicalReference == opts.VersionID && (forall q int :: 0 <= q && q < len(r0)-1 ==> ops[q].CanonicalReference != opts.VersionID)
@@ -231,13 +234,19 @@ package processor
 //@   loop 2
 //@     invariant saneOps(filteredOps) && saneOps(filteredPublishedOps) && saneOps(filteredUnpublishedOps)
 //@   ensures err == nil ==> saneOps(r0) && saneOps(r1) && saneOps(r2)
-//@   modifies elems(published), elems(unpublished)
+//   C02: the history that is resolved is the published operations in chronological order followed by the unpublished
+//   ones in chronological order - anchored operations always come first; this list (or its version-filtered part) is
+//   what is returned
+//@   atcall filterOps len(ops) == len(published) + len(unpublished) && (forall i int :: 0 <= i && i < len(published) ==> ops[i] == published[i]) && (forall j int :: 0 <= j && j < len(unpublished) ==> ops[len(published) + j] == unpublished[j])
+//@   atcall filterOps (forall a int, b int :: 0 <= a && a < b && b < len(published) ==> !opLess(published[b], published[a])) && (forall a int, b int :: 0 <= a && a < b && b < len(unpublished) ==> !opLess(unpublished[b], unpublished[a]))
+//@   ensures err == nil ==> len(r2) <= len(filterIn) && (len(r2) == len(filterIn) ==> sameSlice(r2, filterIn))
+//@   modifies elems(published), elems(unpublished), filterIn
 //
 //@ func (*OperationProcessor).processOperations
 //@   requires procOK(s) && saneOps(publishedOps) && saneOps(unpublishedOps)
 //@   requires arrOf(publishedOps) == 0 || arrOf(publishedOps) != arrOf(unpublishedOps)
 //@   ensures err == nil ==> saneOps(r0) && saneOps(r1) && saneOps(r2)
-//@   modifies elems(publishedOps), elems(unpublishedOps)
+//@   modifies elems(publishedOps), elems(unpublishedOps), filterIn
 
 // ---- C04: deactivation is terminal; the update chain never runs on a deactivated DID ----
 //@ func (*OperationProcessor).Resolve
